@@ -302,7 +302,11 @@ func runXtplCase(r *Rng, out *outFiles, work string, idx int) {
 	}
 	// a file that does not match the pattern must be ignored
 	must(os.WriteFile(filepath.Join(dir, "notes.txt"), []byte(`<p :text="${__('ignored')}">`), 0o644))
+	toStdout := r.Chance(15) // without -output the catalogue goes to standard output (followed by a hint line)
 	args := []string{"-path", dir, "-output", filepath.Join(dir, "out.pot")}
+	if toStdout {
+		args = []string{"-path", dir}
+	}
 	if custom {
 		args = append(args, "-keywords", kwSpec)
 	}
@@ -311,9 +315,20 @@ func runXtplCase(r *Rng, out *outFiles, work string, idx int) {
 	}
 	cmd := exec.Command(xbin, args...)
 	cmd.Env = append(os.Environ(), "LANG=C")
-	outb, err := cmd.CombinedOutput()
+	var outb, potText []byte
+	var err error
 	var implLine, c20 string
-	potText, _ := os.ReadFile(filepath.Join(dir, "out.pot"))
+	if toStdout {
+		outb, err = cmd.Output()
+		potText = outb
+		if i := strings.LastIndex(string(outb), "default output to stdout"); i >= 0 {
+			potText = outb[:i]
+		}
+		out.count("to-stdout")
+	} else {
+		outb, err = cmd.CombinedOutput()
+		potText, _ = os.ReadFile(filepath.Join(dir, "out.pot"))
+	}
 	if err != nil {
 		implLine = "ERR xtpl failed"
 		c20 = "xtpl failed on a loadable template set: " + strings.TrimSpace(string(outb[:min(len(outb), 300)]))
